@@ -1,10 +1,10 @@
 #!/bin/bash
-# evaluate the module-oriented round: /tmp/seed4/<g>/change<i>.{diff,prop,md}, demo<i>.rs, worktree /tmp/w4-<g>
+# evaluate the module-oriented round: /tmp/seed${SEED_RND:-4}/<g>/change<i>.{diff,prop,md}, demo<i>.rs, worktree /tmp/w${SEED_RND:-4}-<g>
 cd /verif
 for g in "$@"; do
   for i in 1 2 3; do
-    [ -f /tmp/seed4/$g/change$i.diff ] || continue
-    prop=$(tr -d ' \n\r' < /tmp/seed4/$g/change$i.prop)
-    SEED_SRC=/tmp/seed4/$g SEED_WT=/tmp/w4-$g SEED_ID=$prop-r4-$g$i SEED_ROUND=4 python3 tools/seed_eval.py $prop $i 2>&1 | grep -E "confirmed=|fired:|APPLY|refusing" | sed "s/^/$g$i /"
+    [ -f /tmp/seed${SEED_RND:-4}/$g/change$i.diff ] || continue
+    prop=$(tr -d ' \n\r' < /tmp/seed${SEED_RND:-4}/$g/change$i.prop)
+    SEED_SRC=/tmp/seed${SEED_RND:-4}/$g SEED_WT=/tmp/w${SEED_RND:-4}-$g SEED_ID=$prop-r${SEED_RND:-4}-$g$i SEED_ROUND=${SEED_RND:-4} python3 tools/seed_eval.py $prop $i 2>&1 | grep -E "confirmed=|fired:|APPLY|refusing" | sed "s/^/$g$i /"
   done
 done
